@@ -3,6 +3,7 @@ import Okane.Model.Literal
 import Okane.Lemmas.ImportReadback
 import Okane.Lemmas.ImportReadbackZero
 import Okane.Lemmas.ImportViseca
+import Okane.Lemmas.ImportCsvCellsUse
 /-!
 # C15 — import emits ledger text that reads back as intended
 
@@ -771,5 +772,392 @@ example : ∃ ts, visecaImport exEnv exCfg exLines = .ok ts ∧ ts.length = 5 :=
              rw [h] at this; simp [Outcome.isOk] at this
   | panic s => have := (C15_viseca_total exEnv exCfg exLines).1; rw [h] at this; simp at this
   | fuelOut => have := (C15_viseca_total exEnv exCfg exLines).1; rw [h] at this; simp at this
+
+end Okane.Import
+
+/-! ## The CSV importer with okane's own number-cell decoder: from the TEXT of the cells to the text read back
+
+`Model/ImportCsv.lean` takes the number decoder as a parameter; `Lemmas/ImportCsvCellsUse.lean` plugs in the model of
+`str_to_comma_decimal` (`Cells.cellEnv`, characterised exactly by `C16_cell_exact` / `C16_cell_value`) and carries every number
+of a row from the text of its cell to the `Txn`.  Here that is composed with `C15_tree` and the read-back theorems above:
+the printed posting amounts read back as the numbers WRITTEN in the cells, padded to the configured precision. -/
+namespace Okane.Import
+open Okane Okane.Parse Okane.Unparse Okane.Import.Cells
+
+/-- **a number as it is read back**: `n` is what the parser reads for the decimal `d` printed next to commodity `c` under the
+precisions `prec` — the same value, never fewer decimal places, exactly `max places precision` places when the padded
+mantissa still fits 96 bits (always for a zero), the sign flag kept on a non-zero number. -/
+structure PaddedAs (prec : String → Nat) (c : String) (d : Dec) (n : PDec) : Prop where
+  eq : n = readbackNum prec d.toPDec c
+  value : n.toRat = d.toRat
+  scale_ge : d.scale ≤ n.scale
+  scale : (d.mant = 0 ∨ d.mant * 10 ^ (max d.scale (prec c) - d.scale) ≤ Literal.maxMant) → n.scale = max d.scale (prec c)
+  sign : d.mant ≠ 0 → n.neg = d.neg
+
+theorem readbackNum_zero_scale (prec : String → Nat) (d : PDec) (c : String) (hm : d.mant = 0) (hs : d.scale ≤ 28)
+    (hp : prec c ≤ 28) : (readbackNum prec d c).scale = max d.scale (prec c) := by
+  simp only [readbackNum, readNum, Literal.displayRescale, Literal.rescale]
+  by_cases h1 : d.scale = max d.scale (prec c)
+  · rw [if_pos h1]; exact h1
+  · simp only [h1, if_false, hm, if_true, Literal.maxScale]
+    omega
+
+/-- every decimal in range is read back padded, for every precision table within rust_decimal's scale range -/
+theorem C15_padded (prec : String → Nat) (c : String) (d : Dec) (hd : cleanDec d = true) (hp : prec c ≤ 28) :
+    PaddedAs prec c d (readbackNum prec d.toPDec c) := by
+  simp only [cleanDec, Bool.and_eq_true, decide_eq_true_eq] at hd
+  obtain ⟨h1, h2, h3, h4⟩ := C15_readback_number prec d.toPDec c hd.2
+  refine ⟨rfl, h1, h2, ?_, fun h0 => h4 hd.1 hp h0⟩
+  rintro (h0 | h0)
+  · exact readbackNum_zero_scale prec d.toPDec c h0 hd.2 hp
+  · by_cases hz : d.mant = 0
+    · exact readbackNum_zero_scale prec d.toPDec c hz hd.2 hp
+    · exact h3 hz h0
+
+/-- how an amount of the record stands in the tree that is read back: the number padded as printed, the commodity, `@ rate`
+(itself padded, next to the rate's own commodity) when a rate is known for the commodity, no lot -/
+def readbackAmount (prec : String → Nat) (t : Txn) (a : OwnedAmount) : PostingAmount :=
+  { amount := .amt (readbackNum prec a.value.toPDec a.commodity) a.commodity,
+    cost := (AMap.get? t.rates a.commodity).map fun x => Exchange.rate (.amt (readbackNum prec x.value.toPDec x.commodity) x.commodity),
+    lot := {} }
+
+theorem mapPostingAmount_shown (prec : String → Nat) (t : Txn) (a : OwnedAmount) :
+    mapPostingAmount (readbackNum prec) (shownAmount t a) = readbackAmount prec t a := by
+  simp only [mapPostingAmount, shownAmount, readbackAmount, mapV, rateFor, mapLot, Option.map_map, Dec.toPDec]
+  congr 1
+
+/-- **the postings that are read back** (`C15_tree` through `readbackTxn`): the posting on the imported account (with the
+balance assertion), one `Expenses:Commissions` posting per charge, the counter-posting — account first for a non-negative
+amount, last for a negative one — each number padded as printed. -/
+theorem C15_readback_posts (prec : String → Nat) (t : Txn) (src : String) :
+    ∃ tr, t.toDoubleEntry src = .ok tr ∧
+      (readbackTxn prec tr).posts =
+        (let acctP : Posting :=
+          { account := src, clear := .uncleared, amount := some (readbackAmount prec t t.amount),
+            balance := t.balance.map (fun b => VExpr.amt (readbackNum prec b.value.toPDec b.commodity) b.commodity),
+            metadata := [] }
+         let chargePs : List Posting := t.charges.map (fun c =>
+          { account := "Expenses:Commissions", clear := .uncleared, amount := some (readbackAmount prec t c.amount),
+            balance := none, metadata := [Metadata.keyValue "Payee" (MetaValue.text c.payee)] })
+         let counterP : Posting :=
+          { account := t.destAccount.getD (if t.amount.value.neg then "Expenses:Unknown" else "Income:Unknown"),
+            clear := t.clearState.getD (if t.destAccount.isSome then .uncleared else .pending),
+            amount := some (readbackAmount prec t (counterAmount t)), balance := none, metadata := [] }
+         if t.amount.value.neg then counterP :: chargePs ++ [acctP] else acctP :: chargePs ++ [counterP]) := by
+  have h := C15_tree t src
+  simp only at h
+  refine ⟨_, h, ?_⟩
+  simp only [readbackTxn, mapTxn]
+  cases t.amount.value.neg <;>
+    simp [mapPosting, mapPostingAmount_shown, List.map_map, Function.comp_def, mapV, Dec.toPDec] <;>
+    cases t.balance <;> simp [mapV]
+
+/-- the posting on the imported account: number `n` of commodity `c`, optional `@ rate`, optional balance assertion -/
+def acctPosting (src c : String) (n : PDec) (cost : Option Exchange) (bal : Option VExpr) : Posting :=
+  { account := src, clear := .uncleared, amount := some { amount := .amt n c, cost := cost, lot := {} }, balance := bal,
+    metadata := [] }
+
+/-- a charge posting: `Expenses:Commissions  n c` with the tag `Payee: operator` -/
+def chargePosting (op c : String) (n : PDec) (cost : Option Exchange) : Posting :=
+  { account := "Expenses:Commissions", clear := .uncleared, amount := some { amount := .amt n c, cost := cost, lot := {} },
+    balance := none, metadata := [Metadata.keyValue "Payee" (MetaValue.text op)] }
+
+theorem cleanDec_flip (b : Bool) (d : Dec) (h : cleanDec d = true) : cleanDec ⟨b, d.mant, d.scale⟩ = true := h
+
+/-- **C15 for one CSV row, from the TEXT of its cells to the postings that are read back** (importer model with okane's own
+number decoder `Cells.cellEnv`; every date decoder, regex engine, configuration, field map, record; every precision table
+within rust_decimal's range).  The transaction built for the row is read back with these postings — the account's posting
+first for a non-negative amount, last for a negative one:
+* (a) the account's posting carries the amount of the row: the number written in the amount / credit / debit cell under the
+  importer's sign rule (`AmountWritten`), padded as printed (`PaddedAs`: same value, `max places precision` places);
+* (b) its balance assertion is the number written in the balance cell, padded (none for an empty cell / no column);
+* (c) the charge posting (if the charge cell holds a non-zero number) carries that number, padded, tagged with the operator;
+* (d) the counter-posting carries, without conversion, the negated amount; with a conversion the secondary amount — in
+  `extract` mode the number written in the secondary-amount cell — under the sign opposite to the amount's, in the secondary
+  commodity; `@ rate` carries the number written in the rate cell, padded, and stands on the posting whose commodity it
+  prices (`price_of_primary`: the account's posting, rate in the secondary commodity; `price_of_secondary`: the
+  counter-posting, rate in the primary commodity). -/
+theorem C15_csv_row_postings (pd : String → Option Date) (cap : Captures) (cfg : CsvCfg) (fm : FieldMap)
+    (rec : List String) (v : RowValues) (txn : Txn) (i : Bool) (prec : String → Nat) (hprec : ∀ c, prec c ≤ 28)
+    (hrow : readRow (cellEnv pd cap) cfg fm rec = .ok (some v))
+    (hb : buildTxn (cellEnv pd cap) cfg fm rec v = .ok (txn, i))
+    (hcomp : ∀ conv, selectedConversion (cellEnv pd cap) cfg v = some conv → conv.amount = .compute →
+      ∀ tr, txn.transferredAmount = some tr → cleanDec tr.value = true) :
+    ∃ tr, txn.toDoubleEntry cfg.account = .ok tr ∧
+      ∃ (n : PDec) (acost : Option Exchange) (bal : Option VExpr) (chargePs : List Posting) (counterP : Posting),
+        (readbackTxn prec tr).posts =
+          (if v.amount.neg then counterP :: chargePs ++ [acctPosting cfg.account v.commodity n acost bal]
+           else acctPosting cfg.account v.commodity n acost bal :: chargePs ++ [counterP]) ∧
+        (PaddedAs prec v.commodity v.amount n ∧ AmountWritten fm cfg.accountType rec v.amount) ∧
+        ((∃ c, fm.extract .balance rec = .ok c ∧ OptNumCell c v.balance) ∧
+          match v.balance with
+          | none => bal = none
+          | some b => ∃ nb, bal = some (.amt nb v.commodity) ∧ PaddedAs prec v.commodity b nb) ∧
+        ((txn.charges = [] ∧ chargePs = []) ∨
+          ∃ op cell value nv ccost, cfg.operator = some op ∧ fm.extract .charge rec = .ok (some cell) ∧
+            NumCell cell (some value) ∧ value.isZero = false ∧ chargePs = [chargePosting op v.commodity nv ccost] ∧
+            PaddedAs prec v.commodity value nv) ∧
+        (counterP.account = txn.destAccount.getD (if v.amount.neg then "Expenses:Unknown" else "Income:Unknown") ∧
+         counterP.balance = none ∧ counterP.metadata = [] ∧
+         match selectedConversion (cellEnv pd cap) cfg v with
+         | none => acost = none ∧ ∃ m, counterP.amount = some { amount := .amt m v.commodity, cost := none, lot := {} } ∧
+             PaddedAs prec v.commodity v.amount.negate m
+         | some conv => ∃ r sc tr rcell nr m ccost, fm.extract .rate rec = .ok (some rcell) ∧ NumCell rcell (some r) ∧
+             conv.commodity.or v.secondaryCommodity = some sc ∧ sc ≠ v.commodity ∧
+             counterP.amount = some { amount := .amt m sc, cost := ccost, lot := {} } ∧
+             PaddedAs prec sc ⟨!v.amount.neg, tr.mant, tr.scale⟩ m ∧
+             (conv.amount = .extract →
+               ∃ scell, fm.extract .secondaryAmount rec = .ok (some scell) ∧ NumCell scell (some tr)) ∧
+             (conv.amount = .compute → conv.rate = .priceOfPrimary → tr = Dec.mul v.amount r) ∧
+             (conv.amount = .compute → conv.rate = .priceOfSecondary → Dec.div v.amount r = .ok (tr, i)) ∧
+             (conv.rate = .priceOfPrimary → acost = some (.rate (.amt nr sc)) ∧ ccost = none ∧ PaddedAs prec sc r nr) ∧
+             (conv.rate = .priceOfSecondary →
+               acost = none ∧ ccost = some (.rate (.amt nr v.commodity)) ∧ PaddedAs prec v.commodity r nr)) := by
+  have hn := csvRow_numbers pd cap cfg fm rec v txn i hrow hb
+  have hrange := csvRow_inRange pd cap cfg fm rec v txn i hrow hb hcomp
+  have hamt : cleanDec v.amount = true :=
+    (amount_written pd cap fm cfg.accountType rec v.amount (CellsUse.readRow_amount _ cfg fm rec v hrow)).2
+  obtain ⟨tr, htr, hposts⟩ := C15_readback_posts prec txn cfg.account
+  obtain ⟨ha1, ha2⟩ := hn.amount
+  obtain ⟨hb1, hb2⟩ := hn.balance
+  refine ⟨tr, htr, readbackNum prec v.amount.toPDec v.commodity,
+    (AMap.get? txn.rates v.commodity).map (fun x => Exchange.rate (.amt (readbackNum prec x.value.toPDec x.commodity) x.commodity)),
+    v.balance.map (fun b => VExpr.amt (readbackNum prec b.toPDec v.commodity) v.commodity),
+    txn.charges.map (fun c =>
+      { account := "Expenses:Commissions", clear := .uncleared, amount := some (readbackAmount prec txn c.amount),
+        balance := none, metadata := [Metadata.keyValue "Payee" (MetaValue.text c.payee)] }),
+    { account := txn.destAccount.getD (if v.amount.neg then "Expenses:Unknown" else "Income:Unknown"),
+      clear := txn.clearState.getD (if txn.destAccount.isSome then .uncleared else .pending),
+      amount := some (readbackAmount prec txn (counterAmount txn)), balance := none, metadata := [] }, ?_, ?_, ?_, ?_, ?_⟩
+  · rw [hposts]
+    simp only [ha1, hb1, acctPosting, readbackAmount, Option.map_map, Function.comp_def]
+  · exact ⟨C15_padded prec v.commodity v.amount hamt (hprec _), ha2⟩
+  · refine ⟨hb2, ?_⟩
+    obtain ⟨c, _, hc⟩ := hb2
+    cases hvb : v.balance with
+    | none => rfl
+    | some b => exact ⟨_, rfl, C15_padded prec v.commodity b (hc.clean b hvb) (hprec _)⟩
+  · rcases hn.charge with h | ⟨op, cell, value, h1, h2, h3, h4, h5⟩
+    · left; exact ⟨h, by rw [h]; rfl⟩
+    · right
+      refine ⟨op, cell, value, readbackNum prec value.toPDec v.commodity,
+        (AMap.get? txn.rates v.commodity).map (fun x => Exchange.rate (.amt (readbackNum prec x.value.toPDec x.commodity) x.commodity)),
+        h1, h2, h3, h4, ?_,
+        C15_padded prec v.commodity value h3.clean_some (hprec _)⟩
+      rw [h5]
+      simp only [List.map_cons, List.map_nil, chargePosting, readbackAmount]
+  · refine ⟨rfl, rfl, rfl, ?_⟩
+    have hconv := hn.conversion
+    cases hsel : selectedConversion (cellEnv pd cap) cfg v with
+    | none =>
+      rw [hsel] at hconv
+      obtain ⟨hr, ht, _⟩ := hconv
+      refine ⟨by rw [hr]; rfl, readbackNum prec v.amount.negate.toPDec v.commodity, ?_,
+        C15_padded prec v.commodity v.amount.negate (by rw [cleanDec_negate]; exact hamt) (hprec _)⟩
+      simp only [readbackAmount, counterAmount, ht, hr, ha1, AMap.get?_nil, Option.map_none]
+      rfl
+    | some conv =>
+      rw [hsel] at hconv
+      obtain ⟨r, sc, trd, rcell, h1, h2, h3, h4, h5, h6, h7, h8, h9⟩ := hconv
+      have htrc : cleanDec trd = true := by
+        cases hca : conv.amount with
+        | extract => obtain ⟨scell, _, hs⟩ := h7 hca; exact hs.clean_some
+        | compute => exact hcomp conv hsel hca ⟨trd, sc⟩ h6
+      have hne' : ¬ v.commodity = sc := fun e => h4 e.symm
+      cases hcr : conv.rate with
+      | priceOfPrimary =>
+        rw [hcr] at h5
+        refine ⟨r, sc, trd, rcell, readbackNum prec r.toPDec sc, readbackNum prec (⟨!v.amount.neg, trd.mant, trd.scale⟩ : Dec).toPDec sc,
+          none, h1, h2, h3, h4, ?_, C15_padded prec sc _ (cleanDec_flip _ trd htrc) (hprec _), h7, h8, h9, ?_, ?_⟩
+        · simp [readbackAmount, counterAmount, h6, h5, ha1, AMap.get?, hne', Dec.toPDec]
+        · intro _
+          refine ⟨?_, rfl, C15_padded prec sc r h2.clean_some (hprec _)⟩
+          simp [h5, AMap.get?]
+        · intro hx; rw [hcr] at hx; cases hx
+      | priceOfSecondary =>
+        rw [hcr] at h5
+        refine ⟨r, sc, trd, rcell, readbackNum prec r.toPDec v.commodity,
+          readbackNum prec (⟨!v.amount.neg, trd.mant, trd.scale⟩ : Dec).toPDec sc,
+          some (.rate (.amt (readbackNum prec r.toPDec v.commodity) v.commodity)), h1, h2, h3, h4, ?_,
+          C15_padded prec sc _ (cleanDec_flip _ trd htrc) (hprec _), h7, h8, h9, ?_, ?_⟩
+        · simp [readbackAmount, counterAmount, h6, h5, ha1, AMap.get?, Dec.toPDec]
+        · intro hx; rw [hcr] at hx; cases hx
+        · intro _
+          refine ⟨?_, rfl, C15_padded prec v.commodity r h2.clean_some (hprec _)⟩
+          simp [h5, AMap.get?, h4]
+
+/-- **C15_csv_row_readback** (the read-back of one CSV row, hypotheses on its TEXT only).  For a row read with okane's own
+number decoder whose text fields lie in `CleanWords` (payee, code, note, accounts, commodities, operator — the text part of
+`CleanText`; the numbers need no hypothesis: decoded cells are always in range, `csvRow_inRange`), `to_double_entry`
+returns `tr`, the text the importer prints for it starts an entry, and the entry parser reads exactly that text back as
+`readbackTxn prec tr`, whose postings `C15_csv_row_postings` describes on the text of the cells. -/
+theorem C15_csv_row_readback (pd : String → Option Date) (cap : Captures) (cfg : CsvCfg) (fm : FieldMap)
+    (rec : List String) (v : RowValues) (txn : Txn) (i : Bool) (prec : String → Nat) (hprec : ∀ c, prec c ≤ 28)
+    (w : List Char → Nat)
+    (hrow : readRow (cellEnv pd cap) cfg fm rec = .ok (some v))
+    (hb : buildTxn (cellEnv pd cap) cfg fm rec v = .ok (txn, i))
+    (hcomp : ∀ conv, selectedConversion (cellEnv pd cap) cfg v = some conv → conv.amount = .compute →
+      ∀ tr, txn.transferredAmount = some tr → cleanDec tr.value = true)
+    (hwords : CleanWords txn cfg.account = true) :
+    CleanText txn cfg.account = true ∧
+    ∃ tr, txn.toDoubleEntry cfg.account = .ok tr ∧ StartsEntry (printTransactionP prec w tr) ∧
+      ∀ rest, parseLedgerEntry (printTransactionP prec w tr ++ '\n' :: rest) =
+        .ok (.txn (readbackTxn prec tr)) ('\n' :: rest) := by
+  have hclean : CleanText txn cfg.account = true := by
+    rw [csvRow_cleanText pd cap cfg fm rec v txn i hrow hb hcomp]; exact hwords
+  exact ⟨hclean, C15_readback prec hprec w txn cfg.account hclean⟩
+
+/-- **C15_csv_amount_readback** (headline, `amount` column): the printed posting on the imported account reads back as the
+number WRITTEN in the amount cell.  For every row the importer model with okane's own decoder accepts, with `cell` the text
+the field map yields for `amount`: the transaction is read back (previous theorem) with, on the imported account — first
+posting for a non-negative amount, last for a negative one — the amount `n c` where `c` is the row's commodity and, when
+the cell is not empty, `n` has the value written in the cell (unsigned literal times `(-1)^(minus signs written)`, see
+`CellWritten`), negated for a liability account, never fewer decimal places than written, and exactly
+`max (places written) (precision of c)` places whenever the padded mantissa fits 96 bits. -/
+theorem C15_csv_amount_readback (pd : String → Option Date) (cap : Captures) (cfg : CsvCfg) (fm : FieldMap)
+    (rec : List String) (v : RowValues) (txn : Txn) (i : Bool) (prec : String → Nat) (hprec : ∀ c, prec c ≤ 28)
+    (f : CsvField) (hv : fm.value = .amount f)
+    (hrow : readRow (cellEnv pd cap) cfg fm rec = .ok (some v))
+    (hb : buildTxn (cellEnv pd cap) cfg fm rec v = .ok (txn, i))
+    (hcomp : ∀ conv, selectedConversion (cellEnv pd cap) cfg v = some conv → conv.amount = .compute →
+      ∀ tr, txn.transferredAmount = some tr → cleanDec tr.value = true) :
+    ∃ tr cell p n, txn.toDoubleEntry cfg.account = .ok tr ∧ fm.resolve .amount f rec = .ok (some cell) ∧
+      (if v.amount.neg then (readbackTxn prec tr).posts.getLast? else (readbackTxn prec tr).posts.head?) = some p ∧
+      p.account = cfg.account ∧ p.amount.map (·.amount) = some (.amt n v.commodity) ∧
+      (cell.isEmpty = true → n.mant = 0) ∧
+      (cell.isEmpty = false → ∃ x places, CellWritten cell x places ∧
+        n.toRat = cfg.accountType.signed x ∧
+        places ≤ n.scale ∧
+        ((v.amount.mant = 0 ∨ v.amount.mant * 10 ^ (max places (prec v.commodity) - places) ≤ Literal.maxMant) →
+          n.scale = max places (prec v.commodity))) := by
+  obtain ⟨tr, htr, n, acost, bal, chargePs, counterP, hposts, ⟨hpad, hw⟩, _⟩ :=
+    C15_csv_row_postings pd cap cfg fm rec v txn i prec hprec hrow hb hcomp
+  have hval := hw.value
+  rw [hv] at hval
+  obtain ⟨cell, hcell, hcase⟩ := hval
+  refine ⟨tr, cell, acctPosting cfg.account v.commodity n acost bal, n, htr, hcell, ?_, rfl, rfl, ?_, ?_⟩
+  · rw [hposts]
+    cases v.amount.neg
+    · simp
+    · simp only [if_true]
+      exact List.getLast?_concat
+  · intro he
+    rcases hcase with ⟨_, hm, _⟩ | ⟨he', _⟩
+    · rw [hpad.eq]
+      have := (readNum_toRat (Literal.displayRescale prec v.amount.toPDec v.commodity)).2.1
+      simp only [readbackNum, this]
+      simp only [Literal.displayRescale, Literal.rescale, Dec.toPDec, hm]
+      split
+      · rfl
+      · rfl
+    · rw [he] at he'; cases he'
+  · intro he
+    rcases hcase with ⟨he', _⟩ | ⟨_, x, hx, hxv⟩
+    · rw [he] at he'; cases he'
+    · exact ⟨x, v.amount.scale, hx, by rw [hpad.value]; exact hxv, hpad.scale_ge, hpad.scale⟩
+
+/-- **C15_csv_readback_ledger** (the whole statement): for every CSV file the importer model with okane's own decoder
+imports, whose transactions have clean text (`CleanWords`) and in-range computed amounts, the ledger parser reads the whole
+output of `ImportCmd::run` as exactly the transactions built, padded as printed, one per dated record, in order — and each of
+them is the transaction of one record of the file, to which `C15_csv_row_postings` applies. -/
+theorem C15_csv_readback_ledger (pd : String → Option Date) (cap : Captures) (cfg : CsvCfg) (header : List String)
+    (records : List (List String)) (txns : List Txn) (prec : String → Nat) (hprec : ∀ c, prec c ≤ 28)
+    (w : List Char → Nat)
+    (himp : csvImport (cellEnv pd cap) cfg header records = .ok txns)
+    (hwords : ∀ t ∈ txns, CleanWords t cfg.account = true)
+    (hcomp : ∀ t ∈ txns, ∀ tr, t.transferredAmount = some tr → cleanDec tr.value = true) :
+    ∃ fm trs, FieldMap.tryNew cfg.fields header = .ok fm ∧
+      toDoubleEntries cfg.account txns = .ok trs ∧ trs.length = txns.length ∧
+      parseEntries (importText prec w trs) = .ok (trs.map fun tr => Entry.txn (readbackTxn prec tr)) ∧
+      ∀ t ∈ txns, ∃ rec ∈ records, ∃ v i, readRow (cellEnv pd cap) cfg fm rec = .ok (some v) ∧
+        buildTxn (cellEnv pd cap) cfg fm rec v = .ok (t, i) := by
+  obtain ⟨fm, hfm, hmem⟩ := csvImport_mem _ cfg header records txns himp
+  have hclean : ∀ t ∈ txns, CleanText t cfg.account = true := by
+    intro t ht
+    obtain ⟨rec, _, v, i, hrow, hb⟩ := hmem t ht
+    rw [csvRow_cleanText pd cap cfg fm rec v t i hrow hb (fun _ _ _ tr htr => hcomp t ht tr htr)]
+    exact hwords t ht
+  obtain ⟨trs, h1, _, h3, h4⟩ := C15_readback_ledger prec hprec w txns cfg.account hclean
+  exact ⟨fm, trs, hfm, h1, h3, h4, hmem⟩
+
+/-! ### non-vacuity (the statement of `Lemmas/ImportCsvCellsUse.lean`: `-$1,234.50`, `8,765.50 USD`, `EUR 62.50`) -/
+
+/-- USD is configured with three decimal places -/
+def exCsvPrec : String → Nat := fun c => if c = "USD" then 3 else 0
+theorem exCsvPrec_le : ∀ c, exCsvPrec c ≤ 28 := by intro c; simp only [exCsvPrec]; split <;> omega
+
+-- the hypotheses of the row theorems hold for both rows of the example (the text condition is decided)
+example := C15_csv_row_postings exCsvDates exCsvCap exCsvCfg exCsvFm exCsvRec1 exCsvRow1 exCsvTxn1 false exCsvPrec
+  exCsvPrec_le exCsv_row1 exCsv_txn1 exCsv_hcomp1
+example := C15_csv_row_postings exCsvDates exCsvCap exCsvCfg exCsvFm exCsvRec2 exCsvRow2 exCsvTxn2 false exCsvPrec
+  exCsvPrec_le exCsv_row2 exCsv_txn2 exCsv_hcomp2
+example := C15_csv_row_readback exCsvDates exCsvCap exCsvCfg exCsvFm exCsvRec1 exCsvRow1 exCsvTxn1 false exCsvPrec
+  exCsvPrec_le widthStd exCsv_row1 exCsv_txn1 exCsv_hcomp1 (by decide)
+example := C15_csv_amount_readback exCsvDates exCsvCap exCsvCfg exCsvFm exCsvRec1 exCsvRow1 exCsvTxn1 false exCsvPrec
+  exCsvPrec_le (.column 2) rfl exCsv_row1 exCsv_txn1 exCsv_hcomp1
+example := C15_csv_readback_ledger exCsvDates exCsvCap exCsvCfg exCsvHeader [exCsvRec1, exCsvRec2]
+  [exCsvTxn1, exCsvTxn2] exCsvPrec exCsvPrec_le widthCjk exCsv_import (by decide) (by decide)
+example := C15_padded exCsvPrec "USD" ⟨true, 123450, 2⟩ (by decide) (exCsvPrec_le _)
+/- the text the importer writes for the two rows (`#eval String.ofList (importText exCsvPrec widthStd [builtTree exCsvTxn1,
+builtTree exCsvTxn2])`; USD is padded to three places):
+```
+2024/01/02 * shop
+    Expenses:Shop                           1234.500 USD
+    Expenses:Commissions                       2.000 USD
+    ; Payee: The Bank
+    Assets:Bank                            -1234.500 USD = 8765.500 USD
+
+2024/01/03 * fx
+    ! Expenses:Unknown                         62.50 EUR @ 0.800 USD
+    Assets:Bank                              -50.000 USD
+```
+and what is read back from it, evaluated by the kernel: the cell `-$1,234.50` comes back as `-1234.500` (tag `plain`), the
+balance cell `8,765.50 USD` as `8765.500`, the fee `2.00` as `2.000`, the counter cell `EUR 62.50` as `62.50` with the
+rate cell `0.8` as `@ 0.800 USD`: -/
+example : ((readbackTxn exCsvPrec (builtTree exCsvTxn1)).posts.map fun p => (p.account, p.amount.map (·.amount), p.balance)) =
+    [("Expenses:Shop", some (.amt ⟨false, 1234500, 3, some .plain⟩ "USD"), none),
+     ("Expenses:Commissions", some (.amt ⟨false, 2000, 3, none⟩ "USD"), none),
+     ("Assets:Bank", some (.amt ⟨true, 1234500, 3, some .plain⟩ "USD"), some (.amt ⟨false, 8765500, 3, some .plain⟩ "USD"))] := by
+  decide +kernel
+example : ((readbackTxn exCsvPrec (builtTree exCsvTxn2)).posts.map fun p => (p.account, p.amount)) ==
+    [("Expenses:Unknown",
+      some { amount := .amt ⟨false, 6250, 2, none⟩ "EUR", cost := some (.rate (.amt ⟨false, 800, 3, none⟩ "USD")), lot := {} }),
+     ("Assets:Bank", some { amount := .amt ⟨true, 50000, 3, none⟩ "USD", cost := none, lot := {} })] := by
+  decide +kernel
+example : readsBack exCsvPrec widthStd [builtTree exCsvTxn1, builtTree exCsvTxn2] = true := by decide +kernel
+
+end Okane.Import
+
+/-! ### the hypothesis on computed amounts is needed -/
+namespace Okane.Import
+open Okane Okane.Parse Okane.Unparse Okane.Import.Cells
+
+/-- configuration of the witness: the secondary amount is COMPUTED as `amount × rate` -/
+def exCompCfg : CsvCfg :=
+  { account := "Assets:Bank", accountType := .asset, operator := none, primary := "USD",
+    conversion := { amount := .compute, rate := .priceOfPrimary }, rowOrder := .oldToNew,
+    fields := [(.date, .index 1), (.payee, .index 2), (.amount, .index 3), (.rate, .index 4), (.secondaryAmount, .index 5),
+      (.secondaryCommodity, .index 6)],
+    rewrite := [] }
+def exCompFm : FieldMap :=
+  ⟨.column 0, .column 1, .amount (.column 2),
+    [(.date, .column 0), (.payee, .column 1), (.amount, .column 2), (.rate, .column 3), (.secondaryAmount, .column 4),
+     (.secondaryCommodity, .column 5)], 5⟩
+/-- the largest 96-bit amount, at a rate of 10 -/
+def exCompRec : List String := ["2024-01-02", "big", "79228162514264337593543950335", "10", "1", "JPY"]
+def exCompTxn : Txn :=
+  { date := ⟨2024, 1, 2⟩, payee := "big", amount := ⟨⟨false, 79228162514264337593543950335, 0⟩, "USD"⟩,
+    clearState := some .pending, rates := [("USD", ⟨⟨false, 10, 0⟩, "JPY"⟩)],
+    transferredAmount := some ⟨⟨false, 792281625142643375935439503350, 0⟩, "JPY"⟩ }
+
+theorem exComp_import : csvImport exCsvEnv exCompCfg ["d", "p", "a", "r", "s", "c"] [exCompRec] = .ok [exCompTxn] := by rfl
+
+/-- **the range condition on COMPUTED amounts cannot be dropped (in the model)**: every cell of this row writes a number in
+range and every text field is clean, but the product `amount × rate` the model computes exceeds 96 bits (rust_decimal itself
+fails on that multiplication — its behaviour outside the range is not modelled), and the text printed for it is rejected. -/
+theorem C15_csv_computed_range_needed :
+    CleanWords exCompTxn "Assets:Bank" = true ∧ NumbersInRange exCompTxn = false ∧
+    (parseEntries (importText exCsvPrec widthStd [builtTree exCompTxn])).isOk = false := by
+  decide +kernel
 
 end Okane.Import
